@@ -1624,4 +1624,37 @@ class RoutingMon(Monitor):
             self.toggled = None
 
 
-MONITORS.update({'batch': BatchMon, 'routing': RoutingMon})
+class DispatchMon(Monitor):
+    """C01 on device models: the event the simulator takes is minimal for (time, -priority) among all pending events
+    of all devices, the clock equals its time and never decreases."""
+
+    def attach(self):
+        self.last_now = 0
+        w = self.w
+        real_step = w.env.step            # already the harness wrapper: wrap once more around it
+        mon = self
+
+        def step():
+            ctx = mon.ctx
+            with ctx.notrace():
+                evs = list(w.env._events)
+                head = evs[0]
+                conds = []
+                for o in evs[1:]:
+                    conds.append(ctx.Or(ctx.z(head.time) < ctx.z(o.time),
+                                        ctx.And(ctx.z(head.time) == ctx.z(o.time), int(head.event_type) >= int(o.event_type))))
+                    if int(head.event_type) == int(o.event_type):
+                        ctx.goal_if('device_events_tied', ctx.z(head.time) == ctx.z(o.time))
+                if conds:
+                    ctx.require(ctx.And(*conds), 'dispatched event is not the minimum for (time, -priority)', getattr(head.action, '__name__', '?'))
+                before = ctx.z(w.env.now)
+            real_step()
+            with ctx.notrace():
+                now = ctx.z(w.env.now)
+                ctx.require(now == ctx.z(head.time), 'clock != time of the dispatched event')
+                ctx.require(now >= before, 'clock went backwards')
+                ctx.goal('device_event_dispatched')
+        w.env.step = step
+
+
+MONITORS.update({'batch': BatchMon, 'routing': RoutingMon, 'dispatch': DispatchMon})
